@@ -131,7 +131,7 @@ Proof.
   intros He Hs Hl.
   destruct e as [id [p|] attrs [|]|id p attrs [|]|[ls]|[ls]|[ls]|]; try discriminate; cbn [g_plain_entry] in He.
   4-6: (unfold serialize_entry; cbn [is_junk negb orb]; rewrite orb_true_r;
-        rewrite serialize_simple_free_comment by (try exact He; try assumption; unfold hash_prefix; auto);
+        rewrite serialize_simple_free_comment by (try exact (proj2 (wide_comment_spec _ He)); try assumption; unfold hash_prefix; auto);
         reflexivity).
   all: apply andb_prop in He as [He Hattrs]; apply andb_prop in He as [Hid Hp];
     destruct (wf_identifier_last id Hid) as (i0 & ib & Eid & Hib10 & Hib13).
@@ -222,7 +222,7 @@ Proof.
   destruct ((g_entry_cases pok) e He) as [[Hc Hp] | (e0 & ls & -> & Hmt & Hc & Hp & Hcm)].
   - rewrite Hc. cbn [app]. apply (g_serialize_plain_entry with_junk e st Hp Hs Hl).
   - rewrite (serialize_attached with_junk st e0 ls Hmt Hc).
-    destruct (simple_comment_spec ls Hcm) as [Hlines _].
+    destruct (wide_comment_spec ls Hcm) as [_ Hlines].
     destruct (serialize_simple_comment_lines ls [35%N] (w st) (or_introl eq_refl) Hlines Hs Hl) as [E1 Hs1].
     rewrite E1. cbn [obind].
     rewrite (g_serialize_plain_entry with_junk e0 (SState (Writer (rev (comment_text [35%N] ls) ++ rbuf (w st)) 0) (wrote_non_junk_entry st))
@@ -288,13 +288,22 @@ Proof.
 Qed.
 
 
+Lemma nz_comment_wide ls : wide_comment (Comment ls) = true -> wide_comment (nz_comment (Comment ls)) = true.
+Proof.
+  unfold wide_comment, nz_comment. cbn [content]. intros H.
+  assert (Hne : ls <> []) by (destruct ls; [discriminate H | discriminate]).
+  assert (H1 : forallb simple_comment_line ls = true) by (destruct ls; [congruence | exact H]).
+  destruct (map nz_line ls) as [|m ms] eqn:Em; [destruct ls; [congruence | discriminate Em]|].
+  rewrite <- Em. rewrite forallb_forall in *. intros x Hx. apply in_map_iff in Hx as [y [<- Hy]]. apply nz_line_simple, H1, Hy.
+Qed.
+
 Lemma g_nz_entry e : g_entry e = true -> g_entry (nz_entry e) = true.
 Proof.
   unfold g_entry. intros H. apply andb_prop in H as [Hp Hc].
   destruct e as [id v a [[ls]|]|id v a [[ls]|]|[ls]|[ls]|[ls]|j];
     cbn [nz_entry strip_comment entry_comment option_map g_plain_entry] in *;
-    rewrite ?Hp; cbn [andb]; try reflexivity; try (apply nz_comment_simple; assumption).
-  all: rewrite (nz_comment_simple ls Hp); reflexivity.
+    rewrite ?Hp; cbn [andb]; try reflexivity; try (apply nz_comment_wide; assumption).
+  all: rewrite (nz_comment_wide ls Hp); reflexivity.
 Qed.
 
 Lemma g_nz_resource t : g_resource t = true -> g_resource (nz_resource t) = true.
@@ -322,7 +331,7 @@ Lemma g_plain_entry_text_layout wrote e : g_plain_entry e = true ->
   exists E, g_plain_entry_text wrote e = lead_of wrote e ++ E ++ lf ++ trail e /\ (gplain_layout vlay) (nz_entry e) E.
 Proof.
   destruct e as [id [p|] attrs [|]|id p attrs [|]|[ls]|[ls]|[ls]|]; try discriminate; cbn [g_plain_entry]; intros He.
-  4-6: (apply simple_comment_ne in He; cbn [content] in He;
+  4-6: (apply wide_comment_ne in He; cbn [content] in He;
         cbn [g_plain_entry_text content lead_of trail is_comment_entry nz_entry nz_comment];
         match goal with |- context [comment_text ?P ?L] => destruct (comment_text_layout P L He) as [C [EC HC]] end;
         exists C; rewrite EC; split; [rewrite <- !app_assoc; reflexivity | constructor; exact HC]).
@@ -354,7 +363,7 @@ Proof.
       by (destruct e0; try discriminate Hmt; reflexivity).
     cbn [content]. rewrite (g_plain_entry_text_attach _ e0 _ Hmt).
     destruct (g_plain_entry_text_layout wrote e0 Hp) as [E [EE HE]]. rewrite EE.
-    pose proof (simple_comment_ne _ Hcm) as Hne. cbn [content] in Hne.
+    pose proof (wide_comment_ne _ Hcm) as Hne. cbn [content] in Hne.
     destruct (comment_text_layout [35%N] ls Hne) as [C [EC HC]]. rewrite EC.
     assert (Hnz0 : nz_entry e0 = e0).
     { destruct e0 as [? ? ? cm|? ? ? cm| | | |]; try discriminate Hmt; cbn [entry_comment] in Hc; subst cm; reflexivity. }
